@@ -16,6 +16,7 @@ UNION_CFGS = {'quick': 'MC_Grammar_union_q.cfg', 'thorough': 'MC_Grammar_union_t
 TAGGED_CFGS = {'quick': 'MC_Grammar_tagged_q.cfg', 'thorough': 'MC_Grammar_tagged_t.cfg'}
 EXC_CFGS = {'quick': 'MC_Grammar_exc_q.cfg', 'thorough': 'MC_Grammar_exc_t.cfg'}
 COND_CFGS = {'quick': 'MC_Grammar_cond_q.cfg', 'thorough': 'MC_Grammar_cond_t.cfg'}
+SHIPPED_CFGS = {'quick': 'MC_Grammar_shipped_q.cfg', 'thorough': 'MC_Grammar_shipped_t.cfg'}   # pane.types helpers
 
 
 def check(pid):
@@ -67,6 +68,7 @@ def c01(tier: str) -> int:
         (CORE_CFGS, C01_CLAUSES, conv.ev_from_data, {'extra_sp': 0 if tier == 'quick' else 1, 'reverse': True}),
         (CLS_CFGS, C01_CLAUSES, conv.ev_from_data, {'extra_sp': 1, 'reverse': True}),
         (SCALAR_CFGS, C01_CLAUSES, conv.ev_from_data, {'extra_sp': 2}),
+        (SHIPPED_CFGS, C01_CLAUSES, conv.ev_from_data, {}),
     ], extra=_both(_random_stage(C01_CLAUSES, conv.ev_from_data, 4000, 150000), _repo_tests_stage(C01_CLAUSES)))
 
 
@@ -109,6 +111,7 @@ def c03(tier: str) -> int:
         (EXC_CFGS, C03_CLAUSES, conv.ev_passes, {}),
         (TAGGED_CFGS, C03_CLAUSES, conv.ev_passes, {}),
         (CLS_CFGS, C03_CLAUSES, conv.ev_passes, {}),
+        (SHIPPED_CFGS, C03_CLAUSES, conv.ev_passes, {}),
     ], extra=_random_stage(C03_CLAUSES, conv.ev_passes, 3000, 100000))
 
 
@@ -124,6 +127,8 @@ def c09(tier: str) -> int:
         (TAGGED_CFGS, own, conv.ev_snapshot_convert, {}),
         (SCALAR_CFGS, own, conv.ev_snapshot_into, {}),
         (CLS_CFGS, own, conv.ev_snapshot_into, {}),
+        (SHIPPED_CFGS, own, conv.ev_snapshot, {}),
+        (SHIPPED_CFGS, own, conv.ev_snapshot_into, {}),
     ], extra=_random_stage(own, conv.ev_snapshot, 5000, 100000))
 
 
@@ -138,6 +143,7 @@ def c05(tier: str) -> int:
         (CLS_CFGS, C05_CLAUSES, conv.ev_roundtrip, {}),
         (TAGGED_CFGS, C05_CLAUSES, conv.ev_roundtrip, {}),
         (UNION_CFGS, C05_CLAUSES, conv.ev_roundtrip, {}),
+        (SHIPPED_CFGS, C05_CLAUSES, conv.ev_roundtrip, {}),
     ], extra=_random_stage(C05_CLAUSES, conv.ev_roundtrip, 5000, 100000))
 
 
@@ -151,6 +157,7 @@ def c06(tier: str) -> int:
         (SCALAR_CFGS, C06_CLAUSES, conv.ev_fixpoint, {}),
         (CLS_CFGS, C06_CLAUSES, conv.ev_fixpoint, {}),
         (UNION_CFGS, C06_CLAUSES, conv.ev_fixpoint, {}),
+        (SHIPPED_CFGS, C06_CLAUSES, conv.ev_fixpoint, {}),
     ])
 
 
@@ -333,6 +340,7 @@ def c04(tier: str) -> int:
         (SCALAR_CFGS, C04_CLAUSES, conv.ev_from_data, {}),
         (TAGGED_CFGS, C04_CLAUSES, conv.ev_from_data, {}),
         (COND_CFGS, C04_CLAUSES, conv.ev_from_data, {}),
+        (SHIPPED_CFGS, C04_CLAUSES, conv.ev_from_data, {}),
     ], extra=extra)
 
 
